@@ -47,6 +47,12 @@ func modeFor(prop string) (*histMode, error) {
 			oracle: func(h *hist.History, o *hist.Outcome) []hist.Problem {
 				return append(baseOracle(h, o), hist.CheckConvergence(o)...)
 			}}, nil
+	case "C02":
+		return &histMode{flavors: []string{"object", "array", "arraymove", "text", "counter", "mixed"}, twin: "nosnap",
+			gen: hist.GenConfig{MinClients: 2, MaxClients: 4, MinSteps: 10, MaxSteps: 40, Late: true, Detach: true, Inflight: true},
+			oracle: func(h *hist.History, o *hist.Outcome) []hist.Problem {
+				return append(baseOracle(h, o), hist.CheckConvergence(o)...)
+			}}, nil
 	case "C03":
 		return &histMode{flavors: []string{"array", "arraymove", "text", "object", "mixed"}, twin: "nogc",
 			gen: hist.GenConfig{MinClients: 2, MaxClients: 4, MinSteps: 8, MaxSteps: 40, PushOnly: true, Inflight: true},
@@ -139,7 +145,7 @@ func runHist(cfg *config) error {
 		return err
 	}
 	defer srvNoGC.Stop()
-	rn := &hist.Runner{S: srv}
+	rn := &hist.Runner{S: srv, ServerDoc: mode.twin == "nosnap"}
 	rnNoGC := &hist.Runner{S: srvNoGC}
 	res := newResult("hist", cfg.seed)
 	r := rng.New(cfg.seed)
@@ -232,6 +238,10 @@ func runHist(cfg *config) error {
 	for i := 0; i < cfg.n; i++ {
 		g := mode.gen
 		g.Flavor = mode.flavors[i%len(mode.flavors)]
+		if mode.twin == "nosnap" {
+			iv := []int64{1, 2, 3, 5, 10}
+			g.Interval, g.Threshold = iv[r.Intn(len(iv))], iv[r.Intn(len(iv))]
+		}
 		hr := r.Fork()
 		h := hist.Generate(hr, g)
 		h.Seed = cfg.seed
